@@ -1095,6 +1095,10 @@ SDcreate(int32       fid,  /* IN: file ID */
         HGOTO_ERROR(DFE_ARGS, FAIL);
     }
 
+    /* nothing can be changed or stored through a file id opened read-only */
+    if (!(handle->flags & NC_RDWR))
+        HGOTO_ERROR(DFE_DENIED, FAIL);
+
     /* fudge the name since its optional */
     if ((name == NULL) || (name[0] == ' ') || (name[0] == '\0'))
         name = "DataSet";
@@ -1327,6 +1331,10 @@ SDsetdimname(int32       id, /* IN: dataset ID */
         HGOTO_ERROR(DFE_ARGS, FAIL);
     }
 
+    /* nothing can be changed or stored through a file id opened read-only */
+    if (!(handle->flags & NC_RDWR))
+        HGOTO_ERROR(DFE_DENIED, FAIL);
+
     /* get the dimension structure */
     dim = SDIget_dim(handle, id);
     if (dim == NULL) {
@@ -1515,6 +1523,10 @@ SDsetrange(int32 sdsid, /* IN: dataset ID */
         HGOTO_ERROR(DFE_ARGS, FAIL);
     }
 
+    /* nothing can be changed or stored through a file id opened read-only */
+    if (!(handle->flags & NC_RDWR))
+        HGOTO_ERROR(DFE_DENIED, FAIL);
+
     var = SDIget_var(handle, sdsid);
     if (var == NULL) {
         HGOTO_ERROR(DFE_ARGS, FAIL);
@@ -1683,6 +1695,10 @@ SDsetattr(int32       id,    /* IN: object ID */
     if (handle == NULL) {
         HGOTO_ERROR(DFE_ARGS, FAIL);
     }
+
+    /* nothing can be changed or stored through a file id opened read-only */
+    if (!(handle->flags & NC_RDWR))
+        HGOTO_ERROR(DFE_DENIED, FAIL);
 
     /* hand over to SDIputattr */
 
@@ -1880,6 +1896,10 @@ SDwritedata(int32  sdsid,  /* IN: dataset ID */
         dim = SDIget_dim(handle, sdsid);
     }
 
+    /* nothing can be changed or stored through a file id opened read-only */
+    if (!(handle->flags & NC_RDWR))
+        HGOTO_ERROR(DFE_DENIED, FAIL);
+
     if (handle->vars == NULL)
         HGOTO_ERROR(DFE_ARGS, FAIL);
 
@@ -2026,6 +2046,10 @@ SDsetdatastrs(int32       sdsid, /* IN: dataset ID */
         HGOTO_ERROR(DFE_ARGS, FAIL);
     }
 
+    /* nothing can be changed or stored through a file id opened read-only */
+    if (!(handle->flags & NC_RDWR))
+        HGOTO_ERROR(DFE_DENIED, FAIL);
+
     if (handle->vars == NULL) {
         HGOTO_ERROR(DFE_ARGS, FAIL);
     }
@@ -2098,6 +2122,10 @@ SDsetcal(int32   sdsid, /* IN: dataset ID */
         HGOTO_ERROR(DFE_ARGS, FAIL);
     }
 
+    /* nothing can be changed or stored through a file id opened read-only */
+    if (!(handle->flags & NC_RDWR))
+        HGOTO_ERROR(DFE_DENIED, FAIL);
+
     if (handle->vars == NULL) {
         HGOTO_ERROR(DFE_ARGS, FAIL);
     }
@@ -2161,6 +2189,10 @@ SDsetfillvalue(int32 sdsid, /* IN: dataset ID */
     if (handle == NULL) {
         HGOTO_ERROR(DFE_ARGS, FAIL);
     }
+
+    /* nothing can be changed or stored through a file id opened read-only */
+    if (!(handle->flags & NC_RDWR))
+        HGOTO_ERROR(DFE_DENIED, FAIL);
 
     if (handle->vars == NULL) {
         HGOTO_ERROR(DFE_ARGS, FAIL);
@@ -2568,6 +2600,10 @@ SDsetdimstrs(int32       id, /* IN: dimension ID */
         HGOTO_ERROR(DFE_ARGS, FAIL);
     }
 
+    /* nothing can be changed or stored through a file id opened read-only */
+    if (!(handle->flags & NC_RDWR))
+        HGOTO_ERROR(DFE_DENIED, FAIL);
+
     /* get the dimension structure */
     dim = SDIget_dim(handle, id);
     if (dim == NULL) {
@@ -2694,6 +2730,10 @@ SDsetdimscale(int32 id,    /* IN: dimension ID */
     if (handle == NULL) {
         HGOTO_ERROR(DFE_ARGS, FAIL);
     }
+
+    /* nothing can be changed or stored through a file id opened read-only */
+    if (!(handle->flags & NC_RDWR))
+        HGOTO_ERROR(DFE_DENIED, FAIL);
 
     /* get the dimension structure */
     dim = SDIget_dim(handle, id);
@@ -3121,6 +3161,10 @@ SDsetexternalfile(int32       id,       /* IN: dataset ID */
         HGOTO_ERROR(DFE_ARGS, FAIL);
     }
 
+    /* nothing can be changed or stored through a file id opened read-only */
+    if (!(handle->flags & NC_RDWR))
+        HGOTO_ERROR(DFE_DENIED, FAIL);
+
     if (handle->vars == NULL) {
         HGOTO_ERROR(DFE_ARGS, FAIL);
     }
@@ -3482,6 +3526,10 @@ SDsetnbitdataset(int32 id,        /* IN: dataset ID */
         HGOTO_ERROR(DFE_ARGS, FAIL);
     }
 
+    /* nothing can be changed or stored through a file id opened read-only */
+    if (!(handle->flags & NC_RDWR))
+        HGOTO_ERROR(DFE_DENIED, FAIL);
+
     if (handle->vars == NULL) {
         HGOTO_ERROR(DFE_ARGS, FAIL);
     }
@@ -3635,6 +3683,10 @@ SDsetcompress(int32        id,        /* IN: dataset ID */
     if (handle == NULL || handle->file_type != HDF_FILE) {
         HGOTO_ERROR(DFE_ARGS, FAIL);
     }
+
+    /* nothing can be changed or stored through a file id opened read-only */
+    if (!(handle->flags & NC_RDWR))
+        HGOTO_ERROR(DFE_DENIED, FAIL);
 
     if (handle->vars == NULL) {
         HGOTO_ERROR(DFE_ARGS, FAIL);
@@ -4485,6 +4537,10 @@ SDsetdimval_comp(int32 dimid,    /* IN: dimension ID, returned from SDgetdimid *
         HGOTO_ERROR(DFE_ARGS, FAIL);
     }
 
+    /* nothing can be changed or stored through a file id opened read-only */
+    if (!(handle->flags & NC_RDWR))
+        HGOTO_ERROR(DFE_DENIED, FAIL);
+
     /* get the dimension structure */
     dim = SDIget_dim(handle, dimid);
     if (dim == NULL) {
@@ -4699,6 +4755,10 @@ SDsetchunk(int32         sdsid,     /* IN: sds access id */
     if (handle == NULL || handle->file_type != HDF_FILE || handle->vars == NULL) {
         HGOTO_ERROR(DFE_ARGS, FAIL);
     }
+
+    /* nothing can be changed or stored through a file id opened read-only */
+    if (!(handle->flags & NC_RDWR))
+        HGOTO_ERROR(DFE_DENIED, FAIL);
 
     /* get variable from id */
     var = SDIget_var(handle, sdsid);
@@ -5257,6 +5317,10 @@ SDwritechunk(int32       sdsid,  /* IN: access aid to SDS */
     if (handle == NULL || handle->file_type != HDF_FILE || handle->vars == NULL) {
         HGOTO_ERROR(DFE_ARGS, FAIL);
     }
+
+    /* nothing can be changed or stored through a file id opened read-only */
+    if (!(handle->flags & NC_RDWR))
+        HGOTO_ERROR(DFE_DENIED, FAIL);
 
     /* get variable from id */
     var = SDIget_var(handle, sdsid);
